@@ -23,6 +23,7 @@ pub fn dispatch(op: &str, case: &Value) -> Value {
         "ws_handshake" => op_ws_handshake(case),
         "typed_request" => op_typed_request(case),
         "openapi" => op_openapi(case),
+        "echo" => op_echo(case),
         _ => json!({"error": format!("unknown op {}", op)}),
     }
 }
@@ -945,4 +946,111 @@ fn op_openapi(case: &Value) -> Value {
         per_version.push(json!({"version": v.to_string(), "operations": ops}));
     }
     json!({"per_version": per_version, "same_across_orders": same_across_orders, "same_twice": same_twice, "refs_resolve": refs_resolve})
+}
+
+// ---------------------------------------------------------------------------------- C09 echo server
+#[derive(Deserialize, Serialize, JsonSchema, Debug, Clone, PartialEq)]
+struct EPath { s: String, n: i64 }
+#[derive(Deserialize, Serialize, JsonSchema, Debug, Clone, PartialEq)]
+struct EQuery { s: String, n: Option<u64>, b: Option<bool>, c: Option<Color> }
+#[derive(Deserialize, Serialize, JsonSchema, Debug, Clone, PartialEq)]
+struct EBody { s: String, i: i64, u: u64, f: f64, b: bool, o: Option<String>, v: Vec<String>, nested: Option<Box<EBody>> }
+#[derive(Deserialize, Serialize, JsonSchema, Debug, Clone, PartialEq)]
+struct EForm { s: String, u: u64, b: bool }
+
+#[endpoint { method = GET, path = "/e/{s}/{n}" }]
+async fn e_path(_r: RequestContext<()>, p: Path<EPath>) -> Result<HttpResponseOk<EPath>, HttpError> { Ok(HttpResponseOk(p.into_inner())) }
+#[endpoint { method = GET, path = "/eq" }]
+async fn e_query(_r: RequestContext<()>, q: Query<EQuery>) -> Result<HttpResponseOk<EQuery>, HttpError> { Ok(HttpResponseOk(q.into_inner())) }
+#[endpoint { method = POST, path = "/ej" }]
+async fn e_json(_r: RequestContext<()>, b: TypedBody<EBody>) -> Result<HttpResponseOk<EBody>, HttpError> { Ok(HttpResponseOk(b.into_inner())) }
+#[endpoint { method = POST, path = "/ef", content_type = "application/x-www-form-urlencoded" }]
+async fn e_form(_r: RequestContext<()>, b: TypedBody<EForm>) -> Result<HttpResponseOk<EForm>, HttpError> { Ok(HttpResponseOk(b.into_inner())) }
+#[endpoint { method = POST, path = "/eraw" }]
+async fn e_raw(_r: RequestContext<()>, b: UntypedBody) -> Result<HttpResponseOk<Vec<u8>>, HttpError> { Ok(HttpResponseOk(b.as_bytes().to_vec())) }
+#[endpoint { method = POST, path = "/em" }]
+async fn e_multipart(_r: RequestContext<()>, mut b: dropshot::MultipartBody) -> Result<HttpResponseOk<Vec<(String, String)>>, HttpError> {
+    let mut out = vec![];
+    while let Some(field) = b.content.next_field().await.map_err(|e| HttpError::for_bad_request(None, e.to_string()))? {
+        let name = field.name().unwrap_or("").to_string();
+        let text = field.text().await.map_err(|e| HttpError::for_bad_request(None, e.to_string()))?;
+        out.push((name, text));
+    }
+    Ok(HttpResponseOk(out))
+}
+#[endpoint { method = PUT, path = "/ectx/{x}" }]
+async fn e_ctx(r: RequestContext<()>, p: Path<VarPath>, q: Query<EQuery>) -> Result<HttpResponseOk<Value>, HttpError> {
+    Ok(HttpResponseOk(json!({
+        "method": r.request.method().as_str(), "uri": r.request.uri().to_string(),
+        "probe": r.request.headers().get("x-probe").map(|v| v.to_str().unwrap_or("?").to_string()),
+        "peer_is_loopback": r.request.remote_addr().ip().is_loopback(), "peer_port": r.request.remote_addr().port(),
+        "request_id": r.request_id, "path_id": p.into_inner().x, "query_s": q.into_inner().s,
+    })))
+}
+
+fn echo_api() -> ApiDescription<()> {
+    let mut api = ApiDescription::new();
+    api.register(e_path).unwrap();
+    api.register(e_query).unwrap();
+    api.register(e_json).unwrap();
+    api.register(e_form).unwrap();
+    api.register(e_raw).unwrap();
+    api.register(e_multipart).unwrap();
+    api.register(e_ctx).unwrap();
+    api
+}
+
+/// {"op":"echo","connections":[[ {"raw": "text of one request"} | {"raw_bytes":[..]} , ... pipelined on one connection ], ...]}
+/// -> per connection, the list of parsed responses (status, json body, x-request-id)
+fn op_echo(case: &Value) -> Value {
+    use std::io::{Read, Write};
+    let conns: Vec<Vec<Vec<u8>>> = case["connections"].as_array().unwrap().iter().map(|c| {
+        c.as_array().unwrap().iter().map(|r| match (&r["raw"], &r["raw_bytes"]) {
+            (Value::String(s), _) => s.as_bytes().to_vec(),
+            (_, Value::Array(a)) => a.iter().map(|x| x.as_u64().unwrap() as u8).collect(),
+            _ => vec![],
+        }).collect()
+    }).collect();
+    let rt = tokio::runtime::Builder::new_multi_thread().worker_threads(2).enable_all().build().unwrap();
+    rt.block_on(async move {
+        let log = slog::Logger::root(slog::Discard, slog::o!());
+        let server = dropshot::ServerBuilder::new(echo_api(), (), log).start().expect("server");
+        let addr = server.local_addr();
+        let out = tokio::task::spawn_blocking(move || {
+            let mut all = vec![];
+            for reqs in conns {
+                let mut s = std::net::TcpStream::connect(addr).unwrap();
+                s.set_read_timeout(Some(std::time::Duration::from_secs(5))).unwrap();
+                let local_port = s.local_addr().unwrap().port();
+                // pipelined: everything is written before anything is read
+                for r in &reqs { s.write_all(r).unwrap(); }
+                let mut buf = vec![];
+                let mut tmp = [0u8; 65536];
+                let mut responses = vec![];
+                while responses.len() < reqs.len() {
+                    // try to parse one complete response from buf
+                    let mut progressed = false;
+                    if let Some(pos) = buf.windows(4).position(|w| w == b"\r\n\r\n") {
+                        let head = String::from_utf8_lossy(&buf[..pos]).to_ascii_lowercase();
+                        let cl = head.split("\r\n").find_map(|l| l.strip_prefix("content-length:").map(|v| v.trim().parse::<usize>().unwrap_or(0))).unwrap_or(0);
+                        if buf.len() >= pos + 4 + cl {
+                            let one: Vec<u8> = buf.drain(..pos + 4 + cl).collect();
+                            if let Some(r) = crate::live::parse_response(&one) {
+                                responses.push(json!({"status": r.status, "body": serde_json::from_slice::<Value>(&r.body).unwrap_or(Value::Null),
+                                                      "x_request_id": r.header_all("x-request-id"), "client_port": local_port}));
+                            }
+                            progressed = true;
+                        }
+                    }
+                    if !progressed {
+                        match s.read(&mut tmp) { Ok(0) | Err(_) => break, Ok(n) => buf.extend_from_slice(&tmp[..n]) }
+                    }
+                }
+                all.push(json!(responses));
+            }
+            all
+        }).await.unwrap();
+        let _ = tokio::time::timeout(std::time::Duration::from_millis(500), server.close()).await;
+        json!({"connections": out})
+    })
 }
